@@ -33,7 +33,7 @@ def run(ctx):
     ctx.instance('R-TOUCH.accesses', nt)
     ctx.floor('R-TOUCH.accesses', 2)
     lru.list_ops_under_index_lock(ctx, fx, 'src/containers/specialized/lru_map.rs', 'lru_map::LruMap', 'LruMap::hash_map')
-    ctx.floor('R-LOCKCOV.lru.sites', 4)
+    ctx.floor('R-LOCKCOV.lru.sites', 3)
     ev = need(fx, LM + "evict_lru")
     ctx.analysed_fns.add(ev.id)
     # exactly one callback on every successful path
@@ -45,14 +45,14 @@ def run(ctx):
                       "evict_lru must invoke the eviction callback exactly once per eviction", ev.file, ev.line)
     order.then_before_ok(ctx, ev, "", r"::on_evict$", "R-ORDER", "every successful eviction passes through on_evict", from_entry=True)
     order.then_before_ok(ctx, ev, "", r"HashMap::<.*>::remove$", "R-ORDER", "every successful eviction removes the key from the index", from_entry=True)
-    order.then_before_ok(ctx, ev, "", r"LruList::remove$", "R-ORDER", "every successful eviction unlinks the node", from_entry=True)
+    order.then_before_ok(ctx, ev, "", r"LruList::(remove|remove_tail|pop_tail|unlink)$", "R-ORDER", "every successful eviction unlinks the node", from_entry=True)
     # same entry: callback key == removed key, both read from the node that is unlinked
     if calls:
         cb = calls[0][1]
         k_cb = _root_local(ev, op_local(cb["a"][1]))
         v_cb = _root_local(ev, op_local(cb["a"][2])) if len(cb["a"]) > 2 else None
         rm = order.sites(ev, r"HashMap::<.*>::remove$")
-        ul = order.sites(ev, r"LruList::remove$")
+        ul = order.sites(ev, r"LruList::(remove|remove_tail|pop_tail|unlink)$")
         k_rm = _root_local(ev, op_local(rm[0][1]["a"][1])) if rm else None
         idx_ul = _root_local(ev, op_local(ul[0][1]["a"][2])) if ul and len(ul[0][1]["a"]) > 2 else None
         same_key = k_cb is not None and k_cb == k_rm
